@@ -618,6 +618,20 @@ fn merge_type_rules_to_enum(
   })
 }
 
+/// The type a field holds by value: a nullable field (`node / null`) is
+/// generated as `Option<Node>`, which contains a `Node` as much as a plain
+/// `Node` does
+fn contained_type(rust_type: &str) -> &str {
+  let mut t = rust_type;
+  while let Some(inner) = t
+    .strip_prefix("Option<")
+    .and_then(|rest| rest.strip_suffix('>'))
+  {
+    t = inner;
+  }
+  t
+}
+
 fn apply_recursive_boxing(defs: &mut [RustTypeDef]) {
   let mut names = Vec::new();
   for def in defs.iter() {
@@ -641,7 +655,7 @@ fn apply_recursive_boxing(defs: &mut [RustTypeDef]) {
           continue;
         };
         for field in fields {
-          if let Some(&dst_idx) = index_by_name.get(&field.rust_type) {
+          if let Some(&dst_idx) = index_by_name.get(contained_type(&field.rust_type)) {
             edges[src_idx].push(dst_idx);
           }
         }
@@ -703,14 +717,15 @@ fn apply_recursive_boxing(defs: &mut [RustTypeDef]) {
     }
 
     for field in fields.iter_mut() {
-      let Some(&dst_idx) = index_by_name.get(&field.rust_type) else {
+      let target = contained_type(&field.rust_type);
+      let Some(&dst_idx) = index_by_name.get(target) else {
         continue;
       };
       if scc_ids[dst_idx] != src_scc {
         continue;
       }
       // Box descending edges in cyclic SCCs so cycle breaking is deterministic.
-      if name.as_str() >= field.rust_type.as_str() {
+      if name.as_str() >= target {
         field.is_boxed = true;
       }
     }
